@@ -5,13 +5,12 @@ CONSTANTS
   Rank <- W_Rank
   InitH = 1
   Guide <- W_Guide
-  MaxSteps = 5
+  MaxSteps = 4
   AllowCrash = FALSE
-  AvoidPanics = FALSE
+  AvoidPanics = TRUE
   EmitAll = FALSE
 INIT Init
 NEXT Next
 VIEW View
 CHECK_DEADLOCK FALSE
-INVARIANTS C04_Chain C07_ViewVS
-PROPERTIES C04_Immutable C04_Monotone
+INVARIANTS C01_CommitHasCert
